@@ -3174,3 +3174,37 @@ Q(name="e2_decrypt_header_sample_bounds", props=["C04", "C03"], func=r"packet\.r
   functions=["PartialDecode::decrypt_header"], pre=lambda c: and_(ule(c.inp("*_1.0.1", BV64), bv(1 << 32)), ule(c.inp("*_1.1", BV64), bv(1 << 32))), post=dh_post,
   bounds="every packet length and packet-number offset below 2^32, every sample size the header key reports: HeaderKey::decrypt is applied - at the packet-number offset - only to a packet that holds at least pn_offset + 4 + sample_size bytes (where the sample is taken from); anything shorter is an InvalidHeader error before the key sees it, so no truncated datagram can make the key's slicing panic",
   replay=("packet_truncated_prefixes_native", lambda m: [dict(sample=16), dict(sample=0), dict(sample=20)]))
+
+
+# ------------------------------------------------------------------ C14: the reuse log's period index is exact also for lifetimes that are not whole seconds
+def bp_post(c, p):
+    st = p.p.state
+    if p.p.outcome != "return":
+        return "true"
+    B128 = ("bv", 128, False)
+    if (c.fn.ret or "").strip() == "u64":
+        r = "((_ zero_extend 64) %s)" % c.ex.read_key(st, "_0", BV64).t       # whatever width the index is computed at
+    else:
+        r = c.ex.read_key(st, "_0", B128).t
+    ns = lambda secs, nanos: "(bvadd (bvmul ((_ zero_extend 64) %s) (_ bv1000000000 128)) ((_ zero_extend 96) %s))" % (secs, nanos)
+    D = ns(c.inp("_2.0", BV64), c.inp("_2.1.0", ("bv", 32, False)))
+    L = ns(c.inp("*_1.0.0", BV64), c.inp("*_1.0.1.0", ("bv", 32, False)))
+    k = lambda n: "(bvmul %s (_ bv%d 128))" % (L, n)
+    cls = lambda x: (eq(x, "(_ bv0 128)"), eq(x, "(_ bv1 128)"), eq(x, "(_ bv2 128)"))
+    c0, c1, c2 = cls(r)
+    # which of the log's two filters (or a turnover) a token belongs to: floor(D / L) in {0, 1, 2, 3+}
+    return and_(eq(c0, "(bvult %s %s)" % (D, L)), eq(c1, and_("(bvuge %s %s)" % (D, L), "(bvult %s %s)" % (D, k(2)))), eq(c2, and_("(bvuge %s %s)" % (D, k(2)), "(bvult %s %s)" % (D, k(3)))))
+
+
+def bp_pre(c):
+    half = lambda n: or_(eq(c.inp(n, ("bv", 32, False)), "(_ bv0 32)"), eq(c.inp(n, ("bv", 32, False)), "(_ bv500000000 32)"))
+    lim = lambda s, n: and_("(bvult %s (_ bv256 64))" % c.inp(s, BV64), half(n))
+    L_nonzero = or_(not_(eq(c.inp("*_1.0.0", BV64), bv(0))), not_(eq(c.inp("*_1.0.1.0", ("bv", 32, False)), "(_ bv0 32)")))
+    return and_(lim("_2.0", "_2.1.0"), lim("*_1.0.0", "*_1.0.1.0"), L_nonzero)
+
+
+Q(name="e2_bloom_period_index", props=["C14"], func=r"bloom_token_log\.rs:\d+:1: \d+:32>::check_and_insert::\{closure#0\}$",
+  allowed_panics=r"attempt to divide", timeout=200,
+  functions=["BloomTokenLog::check_and_insert::{closure#0} (Duration::as_nanos inlined)"], pre=bp_pre, post=bp_post,
+  bounds="every time since the start of period 1 and every NON-ZERO token lifetime, both below 256 s at HALF-SECOND resolution (lifetimes of 2.5 s included; full nanosecond resolution leaves z3 with a 128-bit division by a symbolic divisor that it does not finish in 300 s): the period index the log computes is 0, 1, 2 or larger exactly when the token's expiry lies in the first, second, third or a later lifetime-long period - compared without division (D < L, L <= D < 2L, 2L <= D < 3L); a rounded index would look a replayed token up in the wrong filter",
+  replay=("token_bloom_fractional_lifetime_native", lambda m: [dict(x=0)]))
